@@ -28,6 +28,7 @@ import (
 	"os"
 	"path/filepath"
 	"slices"
+	"strings"
 	"sync"
 
 	"golang.org/x/exp/maps"
@@ -139,6 +140,10 @@ func (c *Converter) fromDirectory(source string) ([]byte, error) {
 	/* Convert each file, appending to one big buffer. */
 	var buf bytes.Buffer
 	for _, fileName := range fileNames {
+		/* Don't care about dotfiles. */
+		if strings.HasPrefix(fileName, ".") {
+			continue
+		}
 		/* "Real" filename */
 		fn := filepath.Join(source, fileName)
 		/* Don't care about non-regular files. */
